@@ -186,6 +186,9 @@ class Ref:
 
     def _scope(self, kind):
         self.cut_scopes[kind] = self.cut_scopes.get(kind, 0) + 1
+        if getattr(self, 'la_depth', 0):
+            # evidence: a failure committed by a cut in a scope that lies inside a lookahead
+            self.cut_scopes['under-lookahead'] = self.cut_scopes.get('under-lookahead', 0) + 1
 
     # ------------------------------------------------------------ lexical
     def _eat(self, rx, pos):
@@ -437,14 +440,23 @@ class Ref:
             return end
         if isinstance(e, LA):
             ch = St(dict(st.ast))
-            self.ev(e.e, pos, ch)
+            self.la_depth = getattr(self, 'la_depth', 0) + 1
+            try:
+                self.ev(e.e, pos, ch)
+            finally:
+                self.la_depth -= 1
             return pos
         if isinstance(e, NLA):
             ch = St(dict(st.ast))
+            self.la_depth = getattr(self, 'la_depth', 0) + 1
             try:
                 self.ev(e.e, pos, ch)
-            except PFail:
+            except (PFail, PSemFail):
+                # `!e` succeeds when e fails, for whatever reason: under the reading in which a semantic failure fails
+                # every scope up to its rule, it still is a failure of e
                 return pos
+            finally:
+                self.la_depth -= 1
             raise PFail(pos, 'nla')
         if isinstance(e, (Named, NamedList)):
             mark = len(st.elems)
